@@ -97,6 +97,56 @@ def fam_read(seed, tier):
                    code=bytes(rnd.randrange(256) for _ in range(8)), version=rnd.randrange(256), have=True)
 
 
+def fam_kinds(seed, tier):
+    """every assignment of 4 kinds (tags 1, 2, 3, 200) to three constructor blocks and one added block; raw bytes of
+    lengths 0..40 for the unknown-block decoder"""
+    import itertools, random
+    rnd = random.Random(seed)
+    for t in itertools.product(range(4), repeat=4):
+        yield dict(t0=t[0], t1=t[1], t2=t[2], t3=t[3], raw=bytes(rnd.randrange(256) for _ in range(rnd.choice([0, 1, 4, 40]))))
+
+
+@proof("C07/Bec2File.blocks-keyed-by-kind", functions=[(MOD, "Bec2File.__init__"), (MOD, "Bec2File.add_auth_block"),
+                                                        (MOD, "UnknownAuthBlock.unpack")], family=fam_kinds)
+def blocks_by_kind(vc):
+    """a file object never holds more than one block per kind: the constructor and add_auth_block keep, for each tag,
+    the LAST block given with it, kinds in order of first appearance; adding a block changes nothing else (body and
+    session key are the same objects); an UnknownAuthBlock cannot be decoded from bytes: format error for every input"""
+    M = vc.module(MOD)
+    E = vc.module("bec2format.error")
+    TAGS = [1, 2, 3, 200]
+    tags = [vc.choice("t%d" % i, TAGS) for i in range(4)]
+    blocks = [M.UnknownAuthBlock(t, b"block-%d" % i) for i, t in enumerate(tags)]
+    sk = b"K" * 16
+    body = object()
+    out = vc.call(M.Bec2File, body, iter(blocks[:3]), sk)
+    vc.prove("constructs", out.returned, repr(out.exc))
+    if not out.returned:
+        return
+    f = out.value
+
+    def want(bs):
+        d = {}
+        for b in bs:
+            d[b.tag] = b
+        return d
+
+    def same(got, exp):
+        return isinstance(got, dict) and list(got) == list(exp) and all(got[k] is exp[k] for k in exp)
+
+    vc.prove("constructor:one-block-per-kind,last-wins,first-appearance-order", same(f.auth_blocks, want(blocks[:3])))
+    vc.prove("constructor:body-and-key-kept", f.bf3file is body and f.session_key == sk)
+    add = vc.call(f.add_auth_block, blocks[3])
+    vc.prove("add:returns-nothing", add.returned and add.value is None, repr(add.exc))
+    vc.prove("add:one-block-per-kind,last-wins", same(f.auth_blocks, want(blocks)))
+    vc.prove("add:at-most-one-block-per-kind", len(f.auth_blocks) == len(set(tags)))
+    vc.prove("add:body-and-key-unchanged", f.bf3file is body and f.session_key == sk)
+    raw = vc.bytes("raw", vc.int("rawlen", 0, 40)) if vc.symbolic else vc._get("raw")
+    dec = vc.call(M.UnknownAuthBlock.unpack, raw, [])
+    vc.prove("unknown-block-cannot-be-decoded=>format-error", dec.raised(E.Bec2FileFormatError), repr(dec.exc))
+    vc.cover("end-of-contract")
+
+
 @proof("C07/read_file.keeps-the-unwrapped-key", functions=[(MOD, "Bec2File.read_file"), (MOD, "Bec2File.__init__")],
        family=fam_read)
 def read_keeps_key(vc):
